@@ -106,6 +106,27 @@ EXTRA = {
     "C19": "Also: connected loggers reset / closed in the same round as another module's control frame (both orders, both hash orders), two connections of one module id, sender / logger not writable in the serving round, descriptor reuse.",
 }
 
+EXTRA2 = {
+    "C01": "Probes also carry a source id that is not the connection's own (relayed message), 0 and a negative one.",
+    "C02": "Every probe lets a report period elapse (the manager's own TIMING_MESSAGE reaches the client exactly when it claims ALL); 'the same Client object connects again' (after loss / disconnect) is an operation.",
+    "C03": "A connecting module or logger dies right before the manager's k-th send of the round serving its own CONNECT.",
+    "C04": "Field names with a leading underscore; float constants that need all their digits, computed, tiny and large ones.",
+    "C05": "The order clause is checked over uniquely identifiable frames of any origin; one plan row runs the manager at log level WARNING (log records are messages); payloads of 65536 .. 1048576 bytes.",
+    "C06": "An id listed in the module-id table, with and without an explicit name.",
+    "C07": "A logger that stays is owed its acknowledgement copies; shutdown()/ENOTCONN is part of the socket model.",
+    "C08": "Every frame kind is also cut into two TCP segments at every offset; every returned message is kept and compared again after all later reads.",
+    "C09": "A long-lived message and array views taken after every step of a disable-block sequence.",
+    "C10": "Float values that need every significant digit.",
+    "C11": "File metadata (AUTOGENERATED, in root / imported file / importer) has no bearing on layout verdicts.",
+    "C12": "One Parser object used again after failed and successful parses; the clashing pair among unrelated higher / lower ids in every arrangement.",
+    "C13": "Hashes in all four outputs after an in-place rebuild with only an imported file edited.",
+    "C14": "A reduced timecode-header environment also in the quick tier.",
+    "C15": "Arrays whose length is or evaluates to one.",
+    "C16": "The second run builds all closures of a group into one shared output directory.",
+    "C18": "Refused connects and instances of a shared id joining / leaving between reports (process-id table).",
+    "C19": "Requests whose header carries unroutable destination fields.",
+}
+
 ALL = [f"C{i:02d}" for i in range(1, 20)]
 NOT_YET = "check not built yet in this round (planned; see DESIGN.md section 4)"
 
@@ -123,7 +144,7 @@ def main():
             "evidence_file": f"/verif/evidence/{pid}.json",
             "replay_cmd_template": "./vcheck replay {path}",
             "engine": c["engine"],
-            "level_claimed": {"category": c["level"], "text": (c["text"] + " " + EXTRA.get(pid, "")).strip(), "design_ref": c["ref"]},
+            "level_claimed": {"category": c["level"], "text": (c["text"] + " " + EXTRA.get(pid, "") + " " + EXTRA2.get(pid, "")).strip(), "design_ref": c["ref"]},
             "level_note": c["note"],
             "technique": c["technique"],
         })
